@@ -231,6 +231,14 @@ def rule_solve_one(ctx: Ctx, prog: Program, want: Tuple[str, ...] = ("R-SOLUTION
                     q = cmp_cond("<", top_before.addc(max_push), ln)
                     if f.decide(q) is True:
                         ctx.ok("R-CAPACITY", f"{a.mode}: push guarded: top + {max_push} < len(stack) before branching", sample={"guard": show_cond(q)})
+                    elif push_primitive_self_guarded(prog):
+                        # no write past the stacks (the push primitive refuses a full stack), but the refusal happens behind a function
+                        # pointer: it cannot be reported from there (R-SWALLOWED-RAISE) -- a capacity-reporting matter only
+                        ctx.violation("R-CAPACITY", fn.path, "solve_one", "push-unreported", f"{fn.path}:{ev_dom.line}",
+                                      f"nothing before the indirect value-heuristic call ensures stacks_top[0] + {max_push} < len(shr_domains_stack); the push "
+                                      "primitive checks the level itself, so nothing is written past the stacks, but it is reached only through a "
+                                      "function pointer, from where an error cannot be raised to the caller: a search deeper than stack_max_height is "
+                                      "not reported")
                     else:
                         ctx.violation("R-CAPACITY", fn.path, "solve_one", "push-unguarded", f"{fn.path}:{ev_dom.line}",
                                       f"the value heuristic pushes up to {max_push} choice points but nothing before the call ensures "
@@ -302,6 +310,30 @@ def _one_inc(ctx: Ctx, fn: FuncInfo, mode: str, label: str, incs: List[Event], i
     else:
         ctx.violation("R-COUNTER", fn.path, fn.name, f"{label}", f"{fn.path}:{incs[0].line if incs else fn.node.lineno}",
                       f"{label} must be incremented by exactly 1, once, on every path where {when} (found {len(incs)} modification(s))")
+
+
+def push_primitive_self_guarded(prog: Program) -> bool:
+    """Does cp_put establish, on every path that writes level T+1 of a stack, that T+1 is a valid level?"""
+    c = getattr(prog, "_push_self_guarded", None)
+    if c is not None:
+        return c
+    fn = prog.func(f"{prog.package}.solvers.choice_points", "cp_put")
+    it = Interp(prog)
+    res = it.run(fn)
+    ok = True
+    n = 0
+    for r in res:
+        if r.outcome == "raise":
+            continue
+        for e in r.events:
+            if e.kind == "store" and e.root in fn.params[:2] and e.idx and isinstance(e.idx[0], Aff):
+                n += 1
+                if r.state.facts.decide(cmp_cond("<", e.idx[0], Aff.atom(("len", e.root, ())))) is not True \
+                        and r.state.facts.decide(cmp_cond("<", e.idx[0], Aff.atom(("len", fn.params[0], ())))) is not True:
+                    ok = False
+    ok = ok and n > 0
+    prog._push_self_guarded = ok  # type: ignore[attr-defined]
+    return ok
 
 
 def max_registered_push(prog: Program) -> int:
